@@ -173,11 +173,14 @@ Definition encode_control (c : control) : pkt :=
   | CVChuWarn e => seq [octet oid_vchu_warn; octet (format_int e)]
   | CPaging size cookie =>
     (* the value packet is an OCTET STRING whose Data is the inner SEQUENCE's
-       bytes (AppendChild on a primitive packet) *)
+       bytes (AppendChild on a primitive packet).  The in-memory packet also
+       keeps the inner packet as a child; Bytes() ignores children of a
+       primitive and a reader never produces them, so the model keeps the
+       wire view (no children). *)
     let inner := seq [integer (Z.of_N size); octet cookie] in
-    seq [octet oid_paging; Pkt {| cls := 0; cons := false; tag := 4 |} (bytes_of inner) [inner]]
+    seq [octet oid_paging; octet (bytes_of inner)]
   | CBehera expire grace err =>
-    let wrap inner := Pkt {| cls := 0; cons := false; tag := 4 |} (bytes_of inner) [inner] in
+    let wrap inner := octet (bytes_of inner) in
     if (0 <=? grace)%Z then
       seq [octet oid_behera; wrap (seq [ctx_cons 0 [new_integer 128 false 1 grace]])]
     else if (0 <=? expire)%Z then
